@@ -623,6 +623,12 @@ def c19_sockets(ctx):
         for mode in ["silent", "pong", "data"]:
             scs.append(_hb_scenario("hb-%s-%d-%d" % (mode, ivl, tmo), mode, ivl, tmo))
     scs.append(_hb_scenario("hb-v2-silent", "silent", 200, 300, v2=True, dur=1500))
+    # the io_uring session backend drives the same engine from its worker loop
+    for mode in ["silent", "pong", "data"]:
+        scs.append(_hb_scenario("hb-%s-200-300-uring" % mode, mode, 200, 300, uring=True))
+    if thorough:
+        for mode in ["silent", "pong"]:
+            scs.append(_hb_scenario("hb-%s-100-700-uring" % mode, mode, 100, 700, uring=True))
     if thorough:
         scs.append(_hb_scenario("hb-router-pong", "pong", 200, 300, sock_type="ROUTER", peer_type=b"DEALER"))
     metas = [s.pop("meta") for s in scs]
@@ -675,7 +681,7 @@ def c19_sockets(ctx):
                     {"pong": "answered every PING", "data": "kept sending data", "silent": "was silent"}[meta["mode"]], meta["timeout"]),
                 "end": "a peer that %s was still connected, or no PING came while the connection was idle" % (
                     "answers nothing" if meta["mode"] == "silent" else "is alive")}.get(x["e"], json.dumps(x))
-        ctx.violation("C19:socket:%s:%s" % (x["e"], meta["mode"] + ("-v2" if meta["v2"] else "")), "%s: %s (t=%s)" % (sc["name"], what, x.get("t")), dict(rp, rejected_event=x))
+        ctx.violation("C19:socket:%s:%s" % (x["e"], meta["mode"] + ("-v2" if meta["v2"] else "") + ("-uring" if meta.get("uring") else "")), "%s: %s (t=%s)" % (sc["name"], what, x.get("t")), dict(rp, rejected_event=x))
     ctx.traces += 0
     ctx.extra["socket_level_heartbeat_runs"] = len(runs)
     pings = sum(1 for ev in runs for e in ev if e["e"] == "ping")
